@@ -134,7 +134,7 @@ theorem factorCall_inv (laws : MagLaws K) (s : DriverState K Rat) (c : Call K Ra
   have h0 : (factorCall s c).fac.info = 0 := (factorCall_factored s c).mp hf
   refine ⟨rfl, rfl, hok.u_pos, hok.u_le_one, paramsOf_col_size s c hok.col_size, h0, ?_⟩
   have hrun : (run (paramsOf s c) (c.fact == .SamePattern_SameRowPerm) (paramsOf s c).n).info = 0 := h0
-  exact run_inv laws (paramsOf s c) hok.u_pos hok.u_le_one (paramsOf_col_size s c hok.col_size) _ _ hrun
+  exact run_inv laws (paramsOf s c) (le_of_lt hok.u_pos) hok.u_le_one (paramsOf_col_size s c hok.col_size) _ _ hrun
 
 theorem stepCall_factored (s : DriverState K Rat) (c : Call K Rat) (h : c.fact = .FACTORED) :
     stepCall s c = (s, { info := 0, X := c.B.map (solveWith s c.trans) }) := by
